@@ -7,11 +7,11 @@ def units(tier):
     uw = nops + nbody + 3
     D = ("P1 no body begins after stop() returned; P2 no lost wake-up after start(); P3 destructor's notify un-parks the thread and it joins")
     return [CbmcUnit("asyncloop", "harness/C03_asyncloop.cpp", [
-        Entry("vp_main_thread_launch", unwind=uw, timeout=1500 if q else 6000,
+        Entry("vp_main_thread_launch", unwind=uw, timeout=1500 if q else 2400,
               desc="THREAD launch from a fresh (never started) loop: every sequence of <= %d further controller operations over {start, stop, destroy}, each injected (run to completion) at every "
                    "loop-thread scheduling point; %s" % (nops, D),
               bounds="<= %d controller operations, <= %d body invocations (unwinding assumption), unwind %d" % (nops, nbody, uw)),
-        Entry("vp_main_thread_launch_started", unwind=uw, timeout=1500 if q else 6000,
+        Entry("vp_main_thread_launch_started", unwind=uw, timeout=1500 if q else 2400,
               desc="same, after a start() that already returned (loop running): %s" % D,
               bounds="<= %d controller operations after the initial start, <= %d body invocations, unwind %d" % (nops, nbody, uw))],
         defines=["NOPS=%d" % nops, "NBODY=%d" % nbody], heap_max=64, validate=False, native_defines=["VP_NATIVE_BUILD"], c_defines=["VP_YIELD_BLOCKS"], object_bits=9,
